@@ -1221,6 +1221,18 @@ func (ex *Exec) evalSpecFunc(name string, call *ast.CallExpr, st *State) []Value
 			st.ghost["net.lastok"] = g
 		}
 		return []Value{g}
+	case "exportlabel", "exportctxlen", "exportctxbyte":
+		// uninterpreted attributes of the (fresh) region a TLS exporter call returned; arbitrary for any other slice
+		x := ex.eval(call.Args[0], st)
+		ref := x.L[".ref"]
+		switch name {
+		case "exportlabel":
+			return []Value{scalarV(types.Typ[types.String], mkApp("tls!exportlabel", sortStr, ref))}
+		case "exportctxlen":
+			return []Value{scalarV(types.Typ[types.Int], mkApp("tls!exportctxlen", sortInt, ref))}
+		}
+		i := ex.eval(call.Args[1], st).scalar()
+		return []Value{scalarV(types.Typ[types.Int], mkApp("tls!exportctxbyte", sortInt, ref, i))}
 	case "lastreadn", "lastreadwant":
 		k := "io.lastn"
 		if name == "lastreadwant" {
